@@ -4,14 +4,18 @@ import FrappyProofs.Lemmas.TextRoundtrip
 import FrappyProofs.Lemmas.ClientText
 import FrappyProofs.Lemmas.RatWireLaws
 import FrappyProofs.Lemmas.TextLibRat
+import FrappyProofs.Lemmas.Base64RT
+import FrappyProofs.Lemmas.JsonTextRat
 import FrappyModel.Generated.C02
 /-
 C02 — property theorems (nothing but property theorems and their non-vacuity examples).
 
 For every float carrier `F` satisfying `Spec.C02.WireLaws`, every datatype tree `dt` with `dt.WF`
 (what the constructors enforce), every valid value `v` (`Spec.C02.Valid`: in the declared value set,
-every scaled leaf reproduced by the grid), under the library laws `B64Law` / `JsonText.loads_dumps` /
-`TextLib.Lawful` (one per library function, tested on the implementation side).
+every scaled leaf reproduced by the grid), under the library laws `JsonText.loads_dumps` / `TextLib.Lawful` (one per
+library function, tested on the implementation side).  The base64 law `B64Law` is no hypothesis any more: it is proved
+for the model's encoder and strict decoder (`Lemmas.C02.b64Law`); that these two agree with CPython's `base64` is checked
+by the correspondence run.
 -/
 set_option linter.unusedSectionVars false
 namespace Frappy.Props.C02
@@ -22,28 +26,28 @@ variable {F : Type} [FloatOps F] [WireLaws F]
 
 /-! ## the exported form is strict JSON of the prescribed kind -/
 
-theorem export_kind (dt : DType F) (hwf : dt.WF) (v : PVal F) (hv : Valid dt v) (hb : B64Law) :
+theorem export_kind (dt : DType F) (hwf : dt.WF) (v : PVal F) (hv : Valid dt v) :
     ∃ j, exportValue dt v = .ok j ∧ KindOK dt j ∧ StrictJ j := by
-  obtain ⟨j, _, h1, h2, h3, _⟩ := wire_core dt v hwf hv hb
+  obtain ⟨j, _, h1, h2, h3, _⟩ := wire_core dt v hwf hv b64Law
   exact ⟨j, h1, h2, h3⟩
 
 /-! ## importing it again on the node yields a value equal to `v` -/
 
-theorem wire_roundtrip_node (dt : DType F) (hwf : dt.WF) (v : PVal F) (hv : Valid dt v) (hb : B64Law) :
+theorem wire_roundtrip_node (dt : DType F) (hwf : dt.WF) (v : PVal F) (hv : Valid dt v) :
     ∃ v', (exportValue dt v >>= importValue dt) = .ok v' ∧ pyEq v' v = true := by
-  obtain ⟨j, v', h1, _, _, _, h4, h5, _⟩ := wire_core dt v hwf hv hb
+  obtain ⟨j, v', h1, _, _, _, h4, h5, _⟩ := wire_core dt v hwf hv b64Law
   exact ⟨v', by rw [h1]; exact h4, h5⟩
 
 /-- … through the JSON text: any `dumps`/`loads` pair that reads back what it wrote for strict values -/
-theorem wire_roundtrip_text (T : JsonText F) (dt : DType F) (hwf : dt.WF) (v : PVal F) (hv : Valid dt v) (hb : B64Law) :
+theorem wire_roundtrip_text (T : JsonText F) (dt : DType F) (hwf : dt.WF) (v : PVal F) (hv : Valid dt v) :
     ∃ j v', exportValue dt v = .ok j ∧ T.loads (T.dumps j) = some j ∧ importValue dt j = .ok v' ∧ pyEq v' v = true := by
-  obtain ⟨j, v', h1, _, h3, _, h4, h5, _⟩ := wire_core dt v hwf hv hb
+  obtain ⟨j, v', h1, _, h3, _, h4, h5, _⟩ := wire_core dt v hwf hv b64Law
   exact ⟨j, v', h1, T.loads_dumps j h3, h4, h5⟩
 
 /-- a canonical value (no `-0.0` leaf: what validation returns) comes back as the very same value, not only an equal one -/
-theorem wire_roundtrip_exact (dt : DType F) (hwf : dt.WF) (v : PVal F) (hv : Valid dt v) (hc : Canon v) (hb : B64Law) :
+theorem wire_roundtrip_exact (dt : DType F) (hwf : dt.WF) (v : PVal F) (hv : Valid dt v) (hc : Canon v) :
     (exportValue dt v >>= importValue dt) = .ok v := by
-  obtain ⟨j, v', h1, _, _, _, h4, _, h6⟩ := wire_core dt v hwf hv hb
+  obtain ⟨j, v', h1, _, _, _, h4, _, h6⟩ := wire_core dt v hwf hv b64Law
   rw [h1, ← h6 hc]
   exact h4
 
@@ -54,9 +58,9 @@ theorem client_imports_alike (dt cdt : DType F) (hc : clientOf dt = some cdt) (j
     importValue cdt j = importValue dt j := import_clientOf dt cdt j hc
 
 theorem wire_roundtrip_client (T : JsonText F) (dt cdt : DType F) (hwf : dt.WF) (hc : clientOf dt = some cdt)
-    (v : PVal F) (hv : Valid dt v) (hb : B64Law) :
+    (v : PVal F) (hv : Valid dt v) :
     ∃ j v', exportValue dt v = .ok j ∧ T.loads (T.dumps j) = some j ∧ importValue cdt j = .ok v' ∧ pyEq v' v = true := by
-  obtain ⟨j, v', h1, h2, h4, h5⟩ := wire_roundtrip_text T dt hwf v hv hb
+  obtain ⟨j, v', h1, h2, h4, h5⟩ := wire_roundtrip_text T dt hwf v hv
   exact ⟨j, v', h1, h2, by rw [client_imports_alike dt cdt hc]; exact h4, h5⟩
 
 /-! ## the text form is accepted back and maps to a value with the identical text form -/
@@ -118,14 +122,14 @@ theorem text_form_changes_where_format_law_fails_scaled (lib : TextLib F) (scale
 non-float leaf); the value `setParameterFromString` sends is of the kind prescribed by the node's type, strict, and
 imports on the node to a value equal to `v'`.  (A re-read float may lie outside the limits — `'%g' % 123456789.0`
 reads back as `123457000.0`; `import_value` does not look at limits, the `change` request validates.) -/
-theorem client_string_write (lib : TextLib F) (hl : TextLib.Lawful lib) (hb : B64Law) (dt cdt : DType F) (hwf : dt.WF)
+theorem client_string_write (lib : TextLib F) (hl : TextLib.Lawful lib) (dt cdt : DType F) (hwf : dt.WF)
     (hc : clientOf dt = some cdt) (v : PVal F) (hv : Valid cdt v) (hcan : Canon v) :
     ∃ t v' j v'', cacheItemStr lib cdt v = some t ∧ fromString lib cdt t = .ok v' ∧ toString lib cdt v' = some t ∧
       SameButFloats v' v ∧ clientSetFromString lib cdt t = .ok j ∧ KindOK dt j ∧ StrictJ j ∧
       importValue dt j = .ok v'' ∧ pyEq v'' v' = true := by
   obtain ⟨t, v', h1, h2, h3, h4, hs⟩ := text_rt lib hl cdt (wft_clientOf dt cdt (wft_of_wf dt hwf) hc) v hv hcan
     (textComplete_clientOf dt cdt v hc)
-  obtain ⟨j, v'', e1, e2, e3, _, e4, e5, _⟩ := send_core dt v' hwf (sendable_clientOf dt cdt v' hc hs) hb
+  obtain ⟨j, v'', e1, e2, e3, _, e4, e5, _⟩ := send_core dt v' hwf (sendable_clientOf dt cdt v' hc hs) b64Law
   exact ⟨t, v', j, v'', h1, h2, h3, h4, by simp [clientSetFromString, clientSet, h2, export_clientOf dt cdt v' hc, e1], e2, e3, e4, e5⟩
 
 /-- the whole path of a value through a client: the node exports the canonical valid value `v` (`update` message), the
@@ -134,18 +138,52 @@ reading it as `v'` (same text form, equal to `v` at every non-float leaf), and w
 that text is strict JSON of the prescribed kind which the node imports to a value equal to `v'`.
 `LimitsOnGrid dt`: the grid law at the limits of the scaled leaves (the limits travel as grid indices; nothing is asked
 of a tree without scaled leaves) — then `v` is a valid value of the rebuilt type as well (`Lemmas.C02.valid_clientOf`). -/
-theorem client_cache_string_write (lib : TextLib F) (hl : TextLib.Lawful lib) (hb : B64Law) (dt cdt : DType F) (hwf : dt.WF)
+theorem client_cache_string_write (lib : TextLib F) (hl : TextLib.Lawful lib) (dt cdt : DType F) (hwf : dt.WF)
     (hlim : LimitsOnGrid dt) (hc : clientOf dt = some cdt) (v : PVal F) (hv : Valid dt v) (hcan : Canon v) :
     ∃ j item t v' j' v'', exportValue dt v = .ok j ∧ updateValue cdt j = .ok item ∧ item.value = v ∧
       item.str lib cdt = some t ∧ fromString lib cdt t = .ok v' ∧ toString lib cdt v' = some t ∧ SameButFloats v' v ∧
       clientSetFromString lib cdt t = .ok j' ∧ KindOK dt j' ∧ StrictJ j' ∧ importValue dt j' = .ok v'' ∧ pyEq v'' v' = true := by
-  obtain ⟨j, w, h1, _, _, _, h4, _, h6⟩ := wire_core dt v hwf hv hb
+  obtain ⟨j, w, h1, _, _, _, h4, _, h6⟩ := wire_core dt v hwf hv b64Law
   have hw : w = v := h6 hcan
   subst hw
   obtain ⟨t, v', j', v'', c1, c2, c3, c4, c5, c6, c7, c8, c9⟩ :=
-    client_string_write lib hl hb dt cdt hwf hc w (valid_clientOf dt cdt w hlim hc hv) hcan
+    client_string_write lib hl dt cdt hwf hc w (valid_clientOf dt cdt w hlim hc hv) hcan
   exact ⟨j, ⟨w, none⟩, t, v', j', v'', h1, by simp [updateValue, client_imports_alike dt cdt hc, h4], rfl, c1, c2, c3, c4, c5,
     c6, c7, c8, c9⟩
+
+/-! ## a command call of the client: the argument arrives on the node, the result arrives on the client -/
+
+/-- `execCommand(module, command, v)` for every valid canonical value `v` of the argument type the client rebuilt
+(`cdt`): the argument it sends is strict JSON of the kind the *node's* argument type prescribes, and the node's
+`import_value` (`Command.do`) makes of it the very value `v`; when the command answers with that value (result type =
+argument type), the node exports it and `execCommand` returns the very value `v` again — the export/import pair of the
+wire clause on the one client path that does not pass the cache. -/
+theorem client_command_roundtrip (dt cdt : DType F) (hwf : dt.WF) (hc : clientOf dt = some cdt)
+    (v : PVal F) (hv : Valid cdt v) (hcan : Canon v) :
+    ∃ j, clientExecArg cdt v = .ok j ∧ KindOK dt j ∧ StrictJ j ∧ importValue dt j = .ok v ∧
+      echoCommand dt cdt j = .ok v := by
+  have hs : Sendable dt v :=
+    sendable_clientOf dt cdt v hc (valid_sendable_wft cdt v (wft_clientOf dt cdt (wft_of_wf dt hwf) hc) hv)
+  obtain ⟨j, w, e1, e2, e3, _, e4, _, e6⟩ := send_core dt v hwf hs b64Law
+  have hw : w = v := e6 hcan
+  subst hw
+  refine ⟨j, by simp [clientExecArg, export_clientOf dt cdt w hc, e1], e2, e3, e4, ?_⟩
+  simp [echoCommand, clientExecResult, e4, e1, client_imports_alike dt cdt hc]
+
+/-- … for a value that is not canonical (a `-0.0` leaf) the node's argument and the client's result are equal to it -/
+theorem client_command_roundtrip_eq (dt cdt : DType F) (hwf : dt.WF) (hc : clientOf dt = some cdt)
+    (v : PVal F) (hv : Valid cdt v) :
+    ∃ j a, clientExecArg cdt v = .ok j ∧ KindOK dt j ∧ StrictJ j ∧ importValue dt j = .ok a ∧ pyEq a v = true := by
+  have hs : Sendable dt v :=
+    sendable_clientOf dt cdt v hc (valid_sendable_wft cdt v (wft_clientOf dt cdt (wft_of_wf dt hwf) hc) hv)
+  obtain ⟨j, w, e1, e2, e3, _, e4, e5, _⟩ := send_core dt v hwf hs b64Law
+  exact ⟨j, w, by simp [clientExecArg, export_clientOf dt cdt v hc, e1], e2, e3, e4, e5⟩
+
+/-! ## the base64 leaf: proved, not assumed -/
+
+/-- `b64decode(b64encode(b), validate=True) == b` holds of the model's encoder (`Base64.encode`) and strict decoder
+(`Base64.decode?`) for every byte string — formerly the hypothesis `B64Law` of every theorem above -/
+theorem base64_roundtrip : ∀ b : List UInt8, Base64.decode? (Base64.encode b) = some b := b64Law
 
 /-! ## constants of the source -/
 
@@ -178,10 +216,17 @@ example : (match exportValue exTree exValue with
     | .ok j => kindOKB exTree j && strictB j
     | _ => false) = true := by decide +kernel
 
-example (hb : B64Law) : ∃ v', (exportValue exTree exValue >>= importValue exTree) = .ok v' ∧ pyEq v' exValue = true :=
-  wire_roundtrip_node exTree exTree_wf exValue exValue_valid hb
+example : ∃ v', (exportValue exTree exValue >>= importValue exTree) = .ok v' ∧ pyEq v' exValue = true :=
+  wire_roundtrip_node exTree exTree_wf exValue exValue_valid
 
 example : ∃ cdt, clientOf exTree = some cdt := ⟨_, rfl⟩
+
+/-! non-vacuity of the wire law: `exJsonText` (`Lemmas/JsonTextRat.lean`) is a `dumps`/`loads` pair over `Rat` that reads
+back every value it wrote -/
+
+example : ∃ j v', exportValue exTree exValue = .ok j ∧ exJsonText.loads (exJsonText.dumps j) = some j ∧
+    importValue exTree j = .ok v' ∧ pyEq v' exValue = true :=
+  wire_roundtrip_text exJsonText exTree exTree_wf exValue exValue_valid
 
 /-! non-vacuity of the text theorems: a library satisfying every law of `TextLib.Lawful` (`Lemmas/TextLibRat.lean`), the
 struct tree above with a node-side value that has all its members, and — on the rebuilt type — the value without its
@@ -208,6 +253,10 @@ theorem exClient_eq : clientOf exTree = some exClient := by
     FloatOps.ofInt, FloatOps.mul]
   decide +kernel
 
+example : ∃ j v', exportValue exTree exValue = .ok j ∧ exJsonText.loads (exJsonText.dumps j) = some j ∧
+    importValue exClient j = .ok v' ∧ pyEq v' exValue = true :=
+  wire_roundtrip_client exJsonText exTree exClient exTree_wf exClient_eq exValue exValue_valid
+
 example : ∃ t v', toString exLib exTree exValueFull = some t ∧ fromString exLib exTree t = .ok v' ∧
     toString exLib exTree v' = some t ∧ SameButFloats v' exValueFull :=
   text_roundtrip exLib exLib_lawful exTree exTree_wf
@@ -216,25 +265,38 @@ example : ∃ t v', toString exLib exTree exValueFull = some t ∧ fromString ex
     (by simp [exValueFull, Canon, CanonFields, CanonList, FloatOps.same, FloatOps.addZero])
     (by simp [exTree, exValueFull, TextComplete, TextCompleteMember, TextCompleteZip])
 
-example (hb : B64Law) : ∃ t v' j v'', cacheItemStr exLib exClient exValue = some t ∧ fromString exLib exClient t = .ok v' ∧
+example : ∃ t v' j v'', cacheItemStr exLib exClient exValue = some t ∧ fromString exLib exClient t = .ok v' ∧
     toString exLib exClient v' = some t ∧ SameButFloats v' exValue ∧ clientSetFromString exLib exClient t = .ok j ∧
     KindOK exTree j ∧ StrictJ j ∧ importValue exTree j = .ok v'' ∧ pyEq v'' v' = true :=
-  client_string_write exLib exLib_lawful hb exTree exClient exTree_wf exClient_eq
+  client_string_write exLib exLib_lawful exTree exClient exTree_wf exClient_eq
     exValue
     (of_decide_eq_true (by decide +kernel : validB exClient exValue = true))
     (by simp [exValue, Canon, CanonFields, CanonList, FloatOps.same, FloatOps.addZero])
 
-example (hb : B64Law) : (exportValue exTree exValue >>= importValue exTree) = .ok exValue :=
+example : (exportValue exTree exValue >>= importValue exTree) = .ok exValue :=
   wire_roundtrip_exact exTree exTree_wf exValue exValue_valid
-    (by simp [exValue, Canon, CanonFields, CanonList, FloatOps.same, FloatOps.addZero]) hb
+    (by simp [exValue, Canon, CanonFields, CanonList, FloatOps.same, FloatOps.addZero])
 
-example (hb : B64Law) : ∃ j item t v' j' v'', exportValue exTree exValue = .ok j ∧ updateValue exClient j = .ok item ∧
+example : ∃ j item t v' j' v'', exportValue exTree exValue = .ok j ∧ updateValue exClient j = .ok item ∧
     item.value = exValue ∧ item.str exLib exClient = some t ∧ fromString exLib exClient t = .ok v' ∧
     toString exLib exClient v' = some t ∧ SameButFloats v' exValue ∧ clientSetFromString exLib exClient t = .ok j' ∧
     KindOK exTree j' ∧ StrictJ j' ∧ importValue exTree j' = .ok v'' ∧ pyEq v'' v' = true :=
-  client_cache_string_write exLib exLib_lawful hb exTree exClient exTree_wf exTree_limits exClient_eq
+  client_cache_string_write exLib exLib_lawful exTree exClient exTree_wf exTree_limits exClient_eq
     exValue exValue_valid
     (by simp [exValue, Canon, CanonFields, CanonList, FloatOps.same, FloatOps.addZero])
+
+example : ∃ j, clientExecArg exClient exValue = .ok j ∧ KindOK exTree j ∧ StrictJ j ∧
+    importValue exTree j = .ok exValue ∧ echoCommand exTree exClient j = .ok exValue :=
+  client_command_roundtrip exTree exClient exTree_wf exClient_eq exValue
+    (of_decide_eq_true (by decide +kernel : validB exClient exValue = true))
+    (by simp [exValue, Canon, CanonFields, CanonList, FloatOps.same, FloatOps.addZero])
+
+example : ∃ j a, clientExecArg exClient exValue = .ok j ∧ KindOK exTree j ∧ StrictJ j ∧
+    importValue exTree j = .ok a ∧ pyEq a exValue = true :=
+  client_command_roundtrip_eq exTree exClient exTree_wf exClient_eq exValue
+    (of_decide_eq_true (by decide +kernel : validB exClient exValue = true))
+
+example : Base64.encode [0, 255, 16, 7] = "AP8QBw==" ∧ Base64.decode? "AP8QBw==" = some [0, 255, 16, 7] := by decide +kernel
 
 /-- a library whose float format is not idempotent at `1` (it prints `1` as a text that reads back as `0`, which prints
 otherwise): the hypotheses of `text_form_changes_where_format_law_fails` are satisfiable -/
